@@ -9,6 +9,14 @@ CHECKS = {
    text="Lean theorems over an exact (Int) layer and a machine (uint64/int64 wrap-explicit) layer of common/time.go: uniqueness of the current round, next = current+1 with its exact time, strict monotonicity, and for every 64-bit round the machine TimeOfRound is the exact time or the documented error value, never negative/wrapped; machine NextRound/CurrentRound equal the exact layer on the whole domain. Tied to the code by regenerated constants and a differential run of the real functions against the model's executable definitions.",
    note="Lean kernel + propext/Classical.choice/Quot.sound; IEEE-754 float division/Log2 of Go modelled as exact integer division / Nat.log2 (checked differentially on the complete power-of-two table and boundary-directed inputs); go2lean; harness.",
    technique="Lean 4 proof (omega/nlinarith, 33-way case split on period bits) + regenerated constants + differential correspondence"),
+ "C18": dict(engine="store", design="§3 C18",
+   text="Lean theorems: for every sequence of put/del the untrimmed bolt model keeps a strictly sorted key list whose entries carry their own round and Get answers exactly as a plain round->beacon map (refinement by induction over the op list); Last is the maximum; a cursor over a snapshot enumerates exactly the snapshot in strictly ascending order, Seek lands on the least round >= the argument and on the round itself when stored, every cursor read is an entry of the snapshot; trimmed store reads are labelled with the key found and the reconstructed previous signature is the stored signature of round-1 or the read fails; the memdb model stays sorted and within capacity for every op sequence, keeps an existing round, forgets only the smallest rounds, and its positional cursor only returns stored elements. Tied to the code by running the real boltdb (trimmed/untrimmed, with/without previous-required) and memdb stores against the model's executable definitions and against an independent sorted-map oracle.",
+   note="Lean kernel + standard axioms; bbolt's snapshot/ordering semantics are modelled, not verified; PostgreSQL back-end not modelled; harness.",
+   technique="Lean 4 proof (induction over op sequences, refinement to a map) + differential correspondence with real bbolt/memdb + sorted-map oracle"),
+ "C17": dict(engine="hash", design="§3 C17",
+   text="Lean theorems over the byte-exact preimages of Info.Hash and Group.Hash (layouts regenerated from the source and tied by rfl): determinism incl. id canonicalisation, every single-field change (period, genesis, public key, seed, id; member key/index, threshold, genesis, transition incl. 0<->non-0, dist key, id) changes the preimage (inner hashes under an explicit collision-freedom hypothesis), joint injectivity under fixed key/seed lengths with the seed/id ambiguity exhibited otherwise, independence of node listing order (sorting of a permutation with distinct indices), chain hash ignores membership, decode rejects a mismatching embedded hash. Tied to the code by hashing the model's preimage (python hashlib) and comparing with the real Hash() on generated groups over all 5 schemes, plus equality across TOML/protobuf/JSON paths and inequality under perturbation on the real code.",
+   note="Lean kernel + standard axioms; SHA-256/BLAKE2b collision freedom is a hypothesis; go2lean layout extractor; python hashlib; kyber point encodings opaque.",
+   technique="Lean 4 proof (list/byte algebra, permutation sorting) + regenerated hash layouts tied by rfl + differential hash comparison"),
 }
 NOT_YET = {}
 for i in range(1, 21):
